@@ -180,7 +180,13 @@ var mandatoryChecks = []string{"reqinfo", "basic-acl", "eacl-request"}
 
 // checkValid is the oracle for a valid request: the op's effect is observable,
 // and every authorisation step ran (successfully) before the first effect.
-func checkValid(t *rapid.T, s objsrv.Spec, res objsrv.Result) {
+func checkValid(t *rapid.T, s objsrv.Spec, res objsrv.Result) { checkValidHist(t, s, res, true) }
+
+// checkValidHist is checkValid for a request inside a series: when it is not
+// the first request (firstReq == false), a valid request that is refused without
+// effect is not a C29 violation (and not a harness problem either: an earlier
+// request of the series may have poisoned a cache); it is only reported.
+func checkValidHist(t *rapid.T, s objsrv.Spec, res objsrv.Result, firstReq bool) bool {
 	fail := func(format string, a ...any) {
 		t.Fatalf("C29 violated: %s\nrequest: %v\nresult: %v", fmt.Sprintf(format, a...), s, res)
 	}
@@ -189,6 +195,12 @@ func checkValid(t *rapid.T, s objsrv.Spec, res objsrv.Result) {
 	}
 	evs := res.Events
 	if !objsrv.HasWhat(objsrv.OfKind(evs, objsrv.KindEffect), expectedEffect(s.Op)) {
+		if !firstReq {
+			if res.Panic != nil || len(objsrv.OfKind(evs, objsrv.KindEffect)) > 0 && !res.Failed() {
+				fail("valid request of a series neither shows its effect nor is refused cleanly")
+			}
+			return false
+		}
 		// not a violation of C29: the harness built a request it believes valid and cannot observe its effect
 		ev.Inconclusive("a request built as valid shows no %q effect: %v\n%v", expectedEffect(s.Op), s, res)
 	}
@@ -246,6 +258,7 @@ func checkValid(t *rapid.T, s objsrv.Spec, res objsrv.Result) {
 			}
 		}
 	}
+	return true
 }
 
 func nontrivialValid(s objsrv.Spec) bool {
@@ -278,5 +291,119 @@ func TestC29Valid(t *testing.T) {
 			rec.Label("remote-dial-observed")
 		}
 		checkValid(t, s, res)
+	})
+}
+
+// TestC29Sequences: the oracle of a single request must hold independently of
+// history. Series of 2-6 requests run against ONE long-lived server / ACL
+// service instance (caches of token checks included): the first request is a
+// valid one carrying a bearer and/or session token; later steps are the same
+// request again, the same request with a forged token (byte-identical token
+// body, foreign / flipped / empty / misplaced signature), the same request
+// with a corrupted verification header, or an epoch tick (caches dropped the
+// way cmd/neofs-node does on a new epoch).
+func TestC29Sequences(t *testing.T) {
+	rec := ev.New("C29", "sequences")
+	defer rec.Flush()
+	env := newEnv(t)
+	sigDefects := []objsrv.Defect{objsrv.DefBodySigFlip, objsrv.DefMetaSigFlip, objsrv.DefNoBodySig, objsrv.DefKeySwap, objsrv.DefBodyChanged, objsrv.DefMetaChanged}
+	rapid.Check(t, func(t *rapid.T) {
+		env.TickEpoch() // every series starts with empty caches
+		base := objsrv.GenSpec(t, []objsrv.Defect{objsrv.DefNone})
+		switch rapid.IntRange(0, 2).Draw(t, "tokenKind") {
+		case 0:
+			base.Bearer = true
+		case 1:
+			if base.Op == objsrv.OpPut {
+				base.Op = objsrv.OpDelete
+			}
+			base.Trusted = false
+			base.Session = rapid.IntRange(objsrv.SessionV1, objsrv.SessionV2).Draw(t, "sessionKind")
+		default:
+			base.Bearer = true
+			if base.Op != objsrv.OpPut && !base.Trusted {
+				base.Session = rapid.IntRange(objsrv.SessionV1, objsrv.SessionV2).Draw(t, "sessionKind")
+			}
+		}
+		base = objsrv.Normalize(base)
+		n := rapid.IntRange(1, 5).Draw(t, "steps")
+		var hist []string
+		lbl := map[string]bool{}
+		validSinceTick := true // the genuine tokens were accepted since the last cache drop
+		step := func(s objsrv.Spec, first bool) {
+			b := env.U.Build(s)
+			res := env.Invoke(b)
+			hist = append(hist, fmt.Sprintf("%v -> status %d", s.Defect, res.Status))
+			defer func() {
+				if t.Failed() {
+					t.Logf("series so far: %v", hist)
+				}
+			}()
+			if s.Defect == objsrv.DefNone {
+				if !checkValidHist(t, s, res, first) {
+					lbl["valid-refused-after-history"] = true
+				}
+				return
+			}
+			checkDefect(t, s, b, res)
+		}
+		step(base, true)
+		sb0, bb0 := env.U.TokenBodies(base)
+		for i := 0; i < n; i++ {
+			switch k := rapid.IntRange(0, 9).Draw(t, "step"); {
+			case k == 0:
+				env.TickEpoch()
+				validSinceTick = false
+				hist = append(hist, "epoch tick")
+				lbl["epoch-tick"] = true
+			case k <= 2:
+				step(base, false)
+				validSinceTick = true
+				lbl["original-again"] = true
+			case k <= 5 && base.Bearer, k <= 8 && base.Session == objsrv.SessionNone:
+				f := base
+				f.Defect, f.ForgeKind = objsrv.DefBearerForgedSig, rapid.IntRange(0, 3).Draw(t, "forgeKind")
+				f = objsrv.Normalize(f)
+				if _, bb := env.U.TokenBodies(f); string(bb) != string(bb0) || len(bb) == 0 {
+					ev.Inconclusive("forged bearer token does not keep the body of the genuine one: %v vs %v", f, base)
+				}
+				step(f, false)
+				if validSinceTick {
+					lbl["forged-after-valid:bearer"] = true
+				}
+				lbl[fmt.Sprintf("forge-kind:%d", f.ForgeKind)] = true
+			case k <= 8:
+				f := base
+				f.Defect, f.ForgeKind = objsrv.DefSessionForgedSig, rapid.IntRange(0, 3).Draw(t, "forgeKind")
+				f = objsrv.Normalize(f)
+				if sb, _ := env.U.TokenBodies(f); string(sb) != string(sb0) || len(sb) == 0 {
+					ev.Inconclusive("forged session token does not keep the body of the genuine one: %v vs %v", f, base)
+				}
+				step(f, false)
+				if validSinceTick {
+					lbl[fmt.Sprintf("forged-after-valid:session-v%d", base.Session)] = true
+					lbl["forged-after-valid:session"] = true
+				}
+				lbl[fmt.Sprintf("forge-kind:%d", f.ForgeKind)] = true
+			default:
+				if base.Trusted {
+					continue // no verification header to corrupt
+				}
+				f := base
+				f.Defect = rapid.SampledFrom(sigDefects).Draw(t, "sigDefect")
+				f = objsrv.Normalize(f)
+				step(f, false)
+				lbl["corrupted-verify-header-after-valid"] = true
+			}
+		}
+		var ls []string
+		for l := range lbl {
+			ls = append(ls, l)
+		}
+		ls = append(ls, "op:"+base.Op.String(), fmt.Sprintf("series-len:%d", len(hist)))
+		rec.Case(true, base.Fingerprint()+"|"+fmt.Sprint(hist), ls...)
+		if rec.WantSample() {
+			rec.Sample(map[string]any{"base": base.String(), "series": hist})
+		}
 	})
 }
